@@ -350,8 +350,9 @@ def stepReg (st : DState) (args : List String) : Option (DState × String) :=
       | none => some (st, bad)
       | some rws =>
         let tid := q.tables.length
-        let old := q.clsConverters c
-        let convs := (q.converters.filter fun p => p.1 != c) ++ [(c, old ++ [tid])]
+        -- a new converter object: `register_converter` (it is not registered yet)
+        let convs := (q.converters.filter fun p => p.1 != c) ++
+          [(c, registerGeneric (q.clsConverters c) tid)]
         some ({ st with q := { q with tables := q.tables ++ [{ rows := rws }], converters := convs } }, "ok")
   | ["rt_mk", a] =>
     -- terms over registry units (`Term(items)`, `.normalized()`, `==`, `hash`)
